@@ -498,6 +498,10 @@ H("conn_unprotected_packet_native", ["C04"], "replay-only", "connection::unprote
   [("mode", "u8")], 4, [], ["Connection::handle_packet"], "native replay body of E2 slice query e2_handle_packet_unprotected_slice")
 H("conn_foreign_datagram_credit_native", ["C07", "C15"], "replay-only", "connection::foreign_datagram_credit_native",
   [("mode", "u8")], 4, [], ["Connection::handle_event", "Connection::handle_coalesced"], "native replay body of E2 queries e2_handle_event_credits_own_path_only / e2_handle_coalesced_credit")
+H("conn_read_crypto_limit_native", ["C06", "C03"], "replay-only", "connection::read_crypto_limit_native",
+  [("start_below", "u16"), ("len", "u16")], 4, [], ["Connection::read_crypto"], "native replay body of E2 query e2_read_crypto_buffer_limit")
+H("assembler_duplicates_bounded_native", ["C06", "C03"], "replay-only", "connection::assembler::duplicates_bounded_native",
+  [("rounds", "u8")], 4, [], ["Assembler::insert", "Assembler::defragment"], "native replay body of E2 slice query e2_assembler_insert_bounded_memory_slice")
 H("conn_close_reason_early_native", ["C08"], "replay-only", "connection::close_reason_early_native",
   [("x", "u8")], 4, [], ["Connection::close", "Connection::poll_transmit", "frame::Close::encode"], "native replay body of E2 slice query e2_poll_transmit_close_reason_slice")
 H("conn_path_response_native", ["C15", "C07"], "replay-only", "connection::path_response_native",
